@@ -16,6 +16,7 @@ UNITS = {
     'event': dict(module='units.event', rlimit=200, timeout=900, expand=False),
     'reader': dict(module='units.reader', rlimit=200, timeout=900),
     'startend': dict(module='units.startend', rlimit=150, timeout=600, expand=False),
+    'ubjson': dict(module='units.ubjson', rlimit=150, timeout=600),
     'hash': dict(module='units.hash', rlimit=50, timeout=300),
     'rollback': dict(module='units.rollback', rlimit=50, timeout=300),
 }
@@ -31,6 +32,10 @@ PROPS = {
                ('codec_mut', r'(read_push|with_capacity|push_null)'),
                ('event', r'(C04\.|C03\.|C12\.|parse_event__(pre|post|start|item|end|other|splitter)|frame_close$|frame_open)'),
                ('reader', r'(^read$|^parse_start|C12\.)')],
+        kani=[],
+    ),
+    'C16': dict(
+        units=[('ubjson', r'(C16|write_utf8|write_map|to_utf8|to_val|to_key|read_map|lemma_)'), ('reader', r'(C16|^parse_metadata)'), ('ser', r'(C01\.file_layout)')],
         kani=[],
     ),
     'C17': dict(
@@ -51,15 +56,16 @@ PROPS = {
         kani=['c19_fix_char'],
     ),
     'C06': dict(
-        units=[('event', r'(__total|port_index|C06)'), ('reader', r'(^read$|^parse_|expect_bytes|port_occupancy|from__partial_game|C06)')],
+        units=[('event', r'(__total|port_index|C06)'), ('reader', r'(^read$|^parse_|expect_bytes|port_occupancy|from__partial_game|C06)'),
+               ('ubjson', r'(C06|to_utf8|to_val|to_key|read_map)')],
         kani=[],
     ),
     'C07': dict(
-        units=[('reader', r'(C07|^read$|^parse_header|^parse_payloads|^parse_game_start|^parse_start|^parse_metadata|expect_bytes)'), ('event', r'(C07|parse_event__total)')],
+        units=[('reader', r'(C07|^read$|^parse_header|^parse_payloads|^parse_game_start|^parse_start|^parse_metadata|expect_bytes)'), ('event', r'(C07|parse_event__total)'), ('ubjson', r'(C07)')],
         kani=[],
     ),
     'C12': dict(
-        units=[('reader', r'(C12|^read$|^parse_header|^parse_start|^parse_metadata|from__partial_game)'), ('event', r'(C12|parse_event__total|frame_open)')],
+        units=[('reader', r'(C12|^read$|^parse_header|^parse_start|^parse_metadata|from__partial_game)'), ('event', r'(C12|parse_event__total|frame_open)'), ('ubjson', r'(C12|to_utf8)')],
         kani=[],
     ),
     'C10': dict(
@@ -67,7 +73,7 @@ PROPS = {
         kani=[],
     ),
     'C08': dict(
-        units=[('event', r'(parse_event__other|parse_event__splitter|C08)'), ('codec_mut', r'(read_push)')],
+        units=[('event', r'(parse_event__other|parse_event__splitter|C08)'), ('codec_mut', r'(read_push)'), ('reader', r'(C10\.skip_lands_on_game_end)'), ('startend', r'(if_more|C05\.tail|C05\.length_classes)')],
         kani=[],
     ),
     'C09': dict(
